@@ -25,7 +25,7 @@ ASSUMPTIONS = ["where no valid argument exists in the state (truncate of an empt
                "snapshot compares file content, kind and permission bits; mtime is ignored"]
 EXHAUSTIVE = "the full kind x state x metadata x how x mutator matrix (no preceding history)"
 KINDS = {'Array': ['empty', 'nonempty', 'empty2d', 'zerotail'], 'Ragged': ['nosub', 'emptyvalues', 'nonempty']}
-HOWS = ['via-copy', 'default-open', 'create-r', 'assign', 'r-r+-r', 'after-r+block', 'reassign-r-after-metadata-r+', 'after-nested-mixed-blocks', 'switched-inside-open-context']
+HOWS = ['held-open-while-twin-is-opened-r+', 'r+-then-abandoned-iterator-then-r', 'via-copy', 'default-open', 'create-r', 'assign', 'r-r+-r', 'after-r+block', 'reassign-r-after-metadata-r+', 'after-nested-mixed-blocks', 'switched-inside-open-context']
 MUTS = {'Array': ['setitem', 'append', 'iterappend', 'truncate', 'delete', 'md.update', 'md.setitem', 'md.pop', 'md.popdefault', 'md.popitem', 'md.del'],
         'Ragged': ['append', 'append0', 'iterappend', 'truncate', 'delete', 'md.update', 'md.setitem', 'md.pop', 'md.popdefault', 'md.popitem', 'md.del']}
 MUST_HIT = [f'how:{h}' for h in HOWS] + [f'Array:{s}' for s in KINDS['Array']] + [f'Ragged:{s}' for s in KINDS['Ragged']] + \
@@ -178,6 +178,32 @@ def execute(ctx, spec):
                         with h.open_arrays(accessmode='r+'):
                             with h.open_arrays(accessmode='r'):
                                 _ = len(h)
+                elif how == 'held-open-while-twin-is-opened-r+':
+                    # the read-only handle is held open (its own, read-only, context) while an identical array elsewhere - same kind,
+                    # state, shape and type - is created and opened read-write; the mutator is issued inside the read-only context
+                    h = _open(kind, path)
+                    keepopen = h.open_array() if kind == 'Array' else h.open_arrays()
+                    keepopen.__enter__()
+                    twin = _create(kind, state, meta, os.path.join(d, 'twin.darr'), 'r+')
+                    with (twin.open_array() if kind == 'Array' else twin.open_arrays()):
+                        _ = len(twin)
+                    twincm = twin.open_array() if kind == 'Array' else twin.open_arrays()
+                    twincm.__enter__()
+                    keep_twin = (twin, twincm)
+                elif how == 'r+-then-abandoned-iterator-then-r':
+                    # in its read-write period the handle was iterated and the iteration was left early (break / close); then mode 'r'
+                    h = _open(kind, path, 'r+')
+                    if len(h):
+                        if kind == 'Array':
+                            for _ in h.iterchunks(1):
+                                break
+                            g_ = h.iterchunks(1)
+                            next(g_)
+                            g_.close()
+                        else:
+                            for _ in h.iter_arrays():
+                                break
+                    h.accessmode = 'r'
                 elif how == 'switched-inside-open-context':
                     # an r+ handle is switched to 'r' while its arrays are held open read-write; the mutator is issued inside that context.
                     # Only mutators that are guarded by the handle's own mode are claimed here (append, iterappend, metadata): element
@@ -208,6 +234,17 @@ def execute(ctx, spec):
         except Exception:
             raised = True
         after = snapshot(path)
+        if how == 'held-open-while-twin-is-opened-r+':
+            try:
+                keep_twin[1].__exit__(None, None, None)
+            except Exception:
+                pass
+            try:
+                keepopen.__exit__(None, None, None)
+            except Exception:
+                pass          # (the array may be gone if the mutator was a delete that wrongly went through)
+            keepopen = None
+            after = snapshot(path)
         if how == 'switched-inside-open-context' and keepopen is not None:
             keepopen.__exit__(None, None, None)
             after = snapshot(path)
